@@ -119,7 +119,8 @@ def run(chk, orch):
             cell = common.random_cell(chk.rng)
             # --check_canonical makes every spliced read's line depend on the reference sequence
             spec["novel"] = max(1, spec.get("novel", 1))
-            a = {"spec": spec, "opts": common.cell_opts({"annotated": True, "check_canonical": True}, cell), "sched": cell["sched"]}
+            a = {"spec": spec, "opts": common.cell_opts({"annotated": True, "check_canonical": True}, cell), "sched": cell["sched"],
+                 "old_gz": k % 2 == 1}
             orch.submit(cell["hashseed"], "scenarios:folder_reuse", a, tag=("f", k))
             freuse[k] = (a, cell)
         # BAM merger machine
